@@ -261,7 +261,7 @@ def main():
             if 'sig' not in e:
                 continue
             base = e['sig'].split('@')[0]
-            form = c06.form_of({'fam': e['suite'], 'cls': e['class']})
+            form = c06.form_of({'fam': e.get('fam', e['suite']), 'cls': e['class']})
             if e['sig'].count('@') == 0:
                 form = None
             observed.setdefault(base, set()).add(form)
